@@ -19,6 +19,7 @@ static uint64_t rng_state;
 static uint32_t rnd(void) { rng_state = rng_state * 6364136223846793005ULL + 1442695040888963407ULL; return (uint32_t)(rng_state >> 33); }
 
 static unsigned long n_flip, a_flip, n_trunc, a_trunc, n_burst, a_burst, n_hdr, a_hdr, n_tail, a_tail, n_ctrl, a_ctrl;
+static unsigned long n_byte, a_byte, n_solid, a_solid;
 
 static int try_load(const uint8_t *buf, long n) {
     uint8_t *c = malloc(n > 0 ? (size_t)n : 1);
@@ -63,6 +64,26 @@ int main(int argc, char **argv) {
         n_burst++;
         if (try_load(c, sz)) { a_burst++; printf("ACCEPT burst at=%ld start=%d len=%d\n", i, startbit, len); }
     }
+    /* every error pattern confined to one byte: each body byte replaced by each of the 255 other values
+     * (all bursts of length <= 8 that do not straddle a byte boundary) */
+    memcpy(c, buf, (size_t)sz);
+    for (long i = NVM_HEADER_SIZE; i < sz; i++) {
+        for (int x = 1; x < 256; x++) {
+            if ((x & (x - 1)) == 0) continue;          /* single-bit patterns are counted under flips */
+            c[i] = buf[i] ^ (uint8_t)x; n_byte++;
+            if (try_load(c, sz)) { a_byte++; printf("ACCEPT bytexor byte=%ld xor=0x%02x\n", i, x); }
+        }
+        c[i] = buf[i];
+    }
+    /* solid bursts: every bit of a window of 2..32 bits inverted, at every bit offset */
+    for (long bit = NVM_HEADER_SIZE * 8L; bit < sz * 8L; bit++) for (int len = 2; len <= 32; len++) {
+        if (bit + len > sz * 8L) break;
+        if ((bit % 8) == 0 && len <= 8) continue;      /* covered by the byte substitutions */
+        memcpy(c, buf, (size_t)sz);
+        for (int k = 0; k < len; k++) c[(bit + k) / 8] ^= (uint8_t)(1u << ((bit + k) % 8));
+        n_solid++;
+        if (try_load(c, sz)) { a_solid++; printf("ACCEPT solidburst bit=%ld len=%d\n", bit, len); }
+    }
     /* magic and version words: every bit */
     for (long i = 0; i < 8; i++) for (int b = 0; b < 8; b++) {
         memcpy(c, buf, (size_t)sz); c[i] ^= (uint8_t)(1u << b); n_hdr++;
@@ -81,8 +102,8 @@ int main(int argc, char **argv) {
         n_tail++;
         if (try_load(c, sz + n)) { a_tail++; printf("ACCEPT tail n=%d kind=%d\n", n, kind); }
     }
-    printf("SUMMARY size=%ld ctrl=%lu/%lu flips=%lu/%lu truncs=%lu/%lu bursts=%lu/%lu header=%lu/%lu tails=%lu/%lu\n",
-           sz, a_ctrl, n_ctrl, a_flip, n_flip, a_trunc, n_trunc, a_burst, n_burst, a_hdr, n_hdr, a_tail, n_tail);
+    printf("SUMMARY size=%ld ctrl=%lu/%lu flips=%lu/%lu truncs=%lu/%lu bursts=%lu/%lu header=%lu/%lu tails=%lu/%lu bytexor=%lu/%lu solid=%lu/%lu\n",
+           sz, a_ctrl, n_ctrl, a_flip, n_flip, a_trunc, n_trunc, a_burst, n_burst, a_hdr, n_hdr, a_tail, n_tail, a_byte, n_byte, a_solid, n_solid);
     free(c); free(buf);
     return 0;
 }
